@@ -2,6 +2,14 @@ import RbV.Model.Fasta
 import RbV.Model.Fastq
 import RbV.Lemmas.Fastx
 import RbV.Lemmas.FastqPrefix
+import RbV.Model.BufLines
+import RbV.Lemmas.BufLines
+import RbV.Model.FastxStream
+import RbV.Lemmas.FastxStream
+import RbV.Lemmas.Utf8Lines
+import RbV.Lemmas.UniWs
+import RbV.Lemmas.FastqPrefixUtf8
+import RbV.Lemmas.PlainText
 /-!
 # C11 — FASTA/FASTQ round trip is lossless and layout independent; truncated FASTQ is prefix safe
 
@@ -117,6 +125,317 @@ theorem fastq_prefix_checked_mem (recs : List FqRec) (hv : ∀ r ∈ recs, Valid
       exact List.mem_of_getElem? hx
     · simp at hr; subst hr; rw [hx] at hc; cases hc
 
+/-! ## Buffer capacity and read fragmentation (`RbV/Model/BufLines.lean`)
+
+`BufLines` mirrors `BufReader::fill_buf`/`consume` and `read_until(b'\n')` over a source whose `k`-th `read` call
+returns `min (sched k) (min c available)` bytes; `Admissible sched` = every read before the end of input returns at
+least one byte.  The model loops terminate by well-founded recursion on the number of pending bytes (a round either
+returns or has consumed a non-empty buffer); capacity ≥ 1 and admissibility are what make an empty `fill_buf` mean
+end of input. -/
+
+open RbV.BufLines in
+/-- **one `read_line` call**: from every reader state, with every capacity ≥ 1 and every admissible schedule, the call
+hands out the first line (up to and including the first LF, or everything that is left) of the bytes not yet
+delivered, and exactly the rest stays pending. -/
+theorem read_line_call (c : Nat) (sched : Nat → Nat) (hc : 1 ≤ c) (hs : Admissible sched) (s : St) :
+    (readLine c sched s).1 = (firstLine s.pending).1 ∧ (readLine c sched s).2.pending = (firstLine s.pending).2 :=
+  readLine_spec c sched hc hs s
+
+open RbV.BufLines in
+/-- at end of input `read_line` hands out the empty string for ever -/
+theorem read_line_eof (c : Nat) (sched : Nat → Nat) (s : St) (h : s.pending = []) :
+    (readLine c sched s).1 = [] ∧ (readLine c sched s).2.pending = [] := by
+  rw [readLine_eof c sched s h]; exact ⟨rfl, h⟩
+
+open RbV.BufLines in
+/-- **`read_line` is independent of buffer capacity and read fragmentation**: the lines handed out by repeated
+`read_line` calls on a fresh `BufReader` (up to the first empty one) are exactly `splitLines file` — the list the
+FASTA/FASTQ reader models work on; this includes a last line without terminator and the empty file. -/
+theorem read_line_schedule_independent (c : Nat) (sched : Nat → Nat) (hc : 1 ≤ c) (hs : Admissible sched)
+    (file : Bytes) : linesVia c sched file = splitLines file := by
+  simpa [linesVia, init, St.pending] using readLines_eq c sched hc hs (init file)
+
+/-! ## The readers on a `BufReader` (`RbV/Model/FastxStream.lean`)
+
+`parseFastaVia T c sched file` / `parseFastqVia T c sched file`: the **stateful** mirror of `Reader::read` and
+`Records` (a reader object owning the `BufReader` model, `read_line` calls where the code has them, the look-ahead
+`self.line`, `InvalidData` when a line is not valid UTF-8).  `parseFastaU T` / `parseFastqU T`: the list models with
+the UTF-8 check.  `T : Txt` are the text functions (`trim_end`, header split): `Txt.unicode` follows Rust's
+`char::is_whitespace` (Unicode `White_Space`), `Txt.ascii` are the ones of the list models; they coincide on text
+without the lead bytes 0xC2, 0xE1, 0xE2, 0xE3 of the non-ASCII white-space characters (`NoUws`). -/
+
+open RbV.BufLines in
+/-- **`read_line` into a `String`**: the UTF-8 check is made on the whole line (`firstLine` of the pending bytes),
+whatever the capacity and the schedule — a multi-byte character split over several reads or buffer refills is
+validated in one piece, and the error, like the line, does not depend on the fragmentation. -/
+theorem read_line_str_call (c : Nat) (sched : Nat → Nat) (hc : 1 ≤ c) (hs : Admissible sched) (s : St) :
+    (readLineStr c sched s).1 =
+        (if validUtf8 (firstLine s.pending).1 then some (firstLine s.pending).1 else none) ∧
+      (readLineStr c sched s).2.pending = (firstLine s.pending).2 := by
+  have h := readLine_spec c sched hc hs s
+  simp only [readLineStr, h.1, h.2, and_self]
+
+open RbV.BufLines in
+/-- **FASTA reader, every byte string**: the items the reader yields (records, the format error, the UTF-8 error)
+do not depend on the buffer capacity nor on how the source fragments its reads — they are a function of the lines. -/
+theorem fasta_read_schedule_independent (T : Txt) (c : Nat) (sched : Nat → Nat) (hc : 1 ≤ c) (hs : Admissible sched)
+    (file : Bytes) : parseFastaVia T c sched file = parseFastaU T file :=
+  parseFastaVia_eq T c sched hc hs file
+
+open RbV.BufLines in
+/-- **FASTQ reader, every byte string** (truncated streams and garbage included) -/
+theorem fastq_read_schedule_independent (T : Txt) (c : Nat) (sched : Nat → Nat) (hc : 1 ≤ c) (hs : Admissible sched)
+    (file : Bytes) : parseFastqVia T c sched file = parseFastqU T file :=
+  parseFastqVia_eq T c sched hc hs file
+
+open RbV.BufLines in
+/-- **`Records` never iterates for ever** (mirror): for every byte string — truncated, garbage, invalid UTF-8 — every
+capacity ≥ 1 and every admissible schedule, `fasta::Records::next` returns `None` after at most (number of lines + 2)
+calls; every single `read` terminates by construction (its loops are well-founded recursions on the bytes still
+pending in the `BufReader` model). -/
+theorem fasta_records_terminate (T : Txt) (c : Nat) (sched : Nat → Nat) (hc : 1 ≤ c) (hs : Admissible sched)
+    (file : Bytes) :
+    ∃ n, faNextCalls T c sched (file.length + 1) { rd := init file, line := [] } = some n ∧
+      n ≤ (splitLines file).length + 2 :=
+  faNextCalls_spec T c sched hc hs _ _ _ ⟨rfl, by simp [init, St.pending]⟩
+    (by have := splitLines_length_le file; omega)
+
+open RbV.BufLines in
+/-- … and `fastq::Records::next` (which goes on after errors) after at most (number of lines + 1) calls: every
+`read` that does not hit the end of input consumes at least one line. -/
+theorem fastq_records_terminate (T : Txt) (c : Nat) (sched : Nat → Nat) (hc : 1 ≤ c) (hs : Admissible sched)
+    (file : Bytes) :
+    ∃ n, fqNextCalls T c sched (file.length + 1) (init file) = some n ∧ n ≤ (splitLines file).length + 1 := by
+  have h := fqNextCalls_spec T c sched hc hs (file.length + 1) (init file)
+  simp only [init, St.pending, List.nil_append] at h
+  exact h (by have := splitLines_length_le file; omega)
+
+/-- valid UTF-8 without non-ASCII white space: every line is valid and the Unicode text functions are the ASCII ones -/
+theorem plain_text_lines (file : Bytes) (hutf : validUtf8 file = true) (hws : NoUws file) :
+    AllValid Txt.unicode (splitLines file) := fun l hl =>
+  ⟨allValid_splitLines file hutf l hl, Txt.unicode_agrees l fun b hb => hws b (mem_of_mem_splitLines file l hl b hb)⟩
+
+/-- on valid UTF-8 input without non-ASCII white space the reader model with the UTF-8 check and Unicode white space
+is the plain list model -/
+theorem fasta_utf8_model_eq (file : Bytes) (hutf : validUtf8 file = true) (hws : NoUws file) :
+    parseFastaU Txt.unicode file = (parseFasta file).map .item :=
+  faRecordsU_valid _ (plain_text_lines file hutf hws)
+
+theorem fastq_utf8_model_eq (file : Bytes) (hutf : validUtf8 file = true) (hws : NoUws file) :
+    parseFastqU Txt.unicode file = (parseFastq file).map .item :=
+  fqRecordsU_valid _ (plain_text_lines file hutf hws)
+
+open RbV.BufLines in
+/-- **parsing through the buffered, fragmented reader = the direct parse** of the line-list model, for every
+capacity ≥ 1, every admissible schedule and every valid UTF-8 byte string without non-ASCII white space -/
+theorem fasta_read_any_buffering (c : Nat) (sched : Nat → Nat) (hc : 1 ≤ c) (hs : Admissible sched)
+    (file : Bytes) (hutf : validUtf8 file = true) (hws : NoUws file) :
+    parseFastaVia Txt.unicode c sched file = (parseFasta file).map .item := by
+  rw [fasta_read_schedule_independent _ c sched hc hs, fasta_utf8_model_eq file hutf hws]
+
+open RbV.BufLines in
+theorem fastq_read_any_buffering (c : Nat) (sched : Nat → Nat) (hc : 1 ≤ c) (hs : Admissible sched)
+    (file : Bytes) (hutf : validUtf8 file = true) (hws : NoUws file) :
+    parseFastqVia Txt.unicode c sched file = (parseFastq file).map .item := by
+  rw [fastq_read_schedule_independent _ c sched hc hs, fastq_utf8_model_eq file hutf hws]
+
+open RbV.BufLines in
+/-- **FASTA round trip under any buffering**: valid records written with any wrap ≥ 1 (the file being valid UTF-8
+without non-ASCII white space, e.g. ASCII) are read back exactly, whatever the reader's buffer capacity and however
+the underlying stream fragments its reads. -/
+theorem fasta_roundtrip_any_buffering (c : Nat) (sched : Nat → Nat) (hc : 1 ≤ c) (hs : Admissible sched)
+    (wrap : Option Nat) (recs : List FaRec) (hv : ∀ r ∈ recs, ValidFa r) (hw : ∀ w, wrap = some w → 1 ≤ w)
+    (hutf : validUtf8 (writeFasta wrap recs) = true) (hws : NoUws (writeFasta wrap recs)) :
+    parseFastaVia Txt.unicode c sched (writeFasta wrap recs) = recs.map fun r => .item (.ok r) := by
+  rw [fasta_read_any_buffering c sched hc hs _ hutf hws, fasta_roundtrip wrap recs hv hw]
+  simp
+
+open RbV.BufLines in
+/-- … and for every layout (re-wrapping, blank lines, CRLF) -/
+theorem fasta_layout_any_buffering (c : Nat) (sched : Nat → Nat) (hc : 1 ≤ c) (hs : Admissible sched)
+    (L : List (FaRec × List Bytes × Bytes))
+    (h : ∀ x ∈ L, ValidFa x.1 ∧ x.2.1.flatten = x.1.seq ∧ IsEol x.2.2)
+    (hutf : validUtf8 (layoutFasta L) = true) (hws : NoUws (layoutFasta L)) :
+    parseFastaVia Txt.unicode c sched (layoutFasta L) = L.map fun x => .item (.ok x.1) := by
+  rw [fasta_read_any_buffering c sched hc hs _ hutf hws, fasta_layout L h]
+  simp
+
+open RbV.BufLines in
+/-- **FASTQ round trip under any buffering** -/
+theorem fastq_roundtrip_any_buffering (c : Nat) (sched : Nat → Nat) (hc : 1 ≤ c) (hs : Admissible sched)
+    (recs : List FqRec) (hv : ∀ r ∈ recs, ValidFq r)
+    (hutf : validUtf8 (writeFastq recs) = true) (hws : NoUws (writeFastq recs)) :
+    parseFastqVia Txt.unicode c sched (writeFastq recs) = recs.map fun r => .item (.ok r) := by
+  rw [fastq_read_any_buffering c sched hc hs _ hutf hws, fastq_roundtrip recs hv]
+  simp
+
+open RbV.BufLines in
+theorem fastq_layout_any_buffering (c : Nat) (sched : Nat → Nat) (hc : 1 ≤ c) (hs : Admissible sched)
+    (L : List (FqRec × FqLayout)) (h : ∀ x ∈ L, ValidFq x.1 ∧ x.2.Ok x.1)
+    (hutf : validUtf8 (layoutFastq L) = true) (hws : NoUws (layoutFastq L)) :
+    parseFastqVia Txt.unicode c sched (layoutFastq L) = L.map fun x => .item (.ok x.1) := by
+  rw [fastq_read_any_buffering c sched hc hs _ hutf hws, fastq_layout L h]
+  simp
+
+open RbV.BufLines in
+/-- **sniffer, FASTA**: on the writer's output for a non-empty list of valid records `get_kind` answers FASTA, and
+the FASTA reader on the returned `Chain` (one more admissible schedule, `chainSched`) yields the records — for every
+capacity and every schedule of the underlying source. -/
+theorem fastx_sniff_fasta (c : Nat) (sched : Nat → Nat) (hc : 1 ≤ c) (hs : Admissible sched)
+    (wrap : Option Nat) (recs : List FaRec) (hne : recs ≠ []) (hv : ∀ r ∈ recs, ValidFa r)
+    (hw : ∀ w, wrap = some w → 1 ≤ w)
+    (hutf : validUtf8 (writeFasta wrap recs) = true) (hws : NoUws (writeFasta wrap recs)) :
+    sniff (writeFasta wrap recs) = some .fasta ∧
+      parseFastaVia Txt.unicode c (chainSched sched) (writeFasta wrap recs) = recs.map fun r => .item (.ok r) := by
+  refine ⟨?_, fasta_roundtrip_any_buffering c _ hc (chainSched_admissible sched hs) wrap recs hv hw hutf hws⟩
+  cases recs with
+  | nil => exact absurd rfl hne
+  | cons r rs => simp [writeFasta, writeFastaRec, faHeaderBytes, sniff]
+
+open RbV.BufLines in
+/-- **sniffer, FASTQ** -/
+theorem fastx_sniff_fastq (c : Nat) (sched : Nat → Nat) (hc : 1 ≤ c) (hs : Admissible sched)
+    (recs : List FqRec) (hne : recs ≠ []) (hv : ∀ r ∈ recs, ValidFq r)
+    (hutf : validUtf8 (writeFastq recs) = true) (hws : NoUws (writeFastq recs)) :
+    sniff (writeFastq recs) = some .fastq ∧
+      parseFastqVia Txt.unicode c (chainSched sched) (writeFastq recs) = recs.map fun r => .item (.ok r) := by
+  refine ⟨?_, fastq_roundtrip_any_buffering c _ hc (chainSched_admissible sched hs) recs hv hutf hws⟩
+  cases recs with
+  | nil => exact absurd rfl hne
+  | cons r rs => simp [writeFastq, writeFastqRec, sniff]
+
+/-- ASCII is valid UTF-8 without non-ASCII white space (so the `hutf` / `hws` hypotheses hold for ASCII files) -/
+theorem ascii_plain_text (f : Bytes) (h : ∀ b ∈ f, b < 128) : validUtf8 f = true ∧ NoUws f :=
+  ⟨validUtf8_ascii f h, fun b hb => by
+    have := h b hb
+    simp only [isUwsLead, Bool.or_eq_false_iff, beq_eq_false_iff_ne]
+    omega⟩
+
+open RbV.BufLines in
+/-- **truncated FASTQ stream under any buffering** (ASCII files, so that every prefix is valid UTF-8): the reader on
+the first `n` bytes yields the first `k` original records followed by nothing, one `IncompleteRecord`, the `k`-th
+original record, or one record failing `check()` — whatever the capacity and the schedule. -/
+theorem fastq_prefix_safe_any_buffering (c : Nat) (sched : Nat → Nat) (hc : 1 ≤ c) (hs : Admissible sched)
+    (recs : List FqRec) (hv : ∀ r ∈ recs, ValidFq r) (hascii : ∀ b ∈ writeFastq recs, b < 128) (n : Nat) :
+    ∃ k tail, parseFastqVia Txt.unicode c sched ((writeFastq recs).take n) =
+        ((recs.take k).map FqItem.ok ++ tail).map .item ∧
+      (tail = [] ∨ tail = [.incomplete] ∨ (∃ r, recs[k]? = some r ∧ tail = [.ok r]) ∨
+       ∃ r', tail = [.ok r'] ∧ r'.check = false) := by
+  obtain ⟨k, tail, hk, ht⟩ := fastq_prefix_safe recs hv n
+  refine ⟨k, tail, ?_, ht⟩
+  have hp := ascii_plain_text ((writeFastq recs).take n) fun b hb => hascii b (List.mem_of_mem_take hb)
+  rw [fastq_read_any_buffering c sched hc hs _ hp.1 hp.2, hk]
+
+open RbV.BufLines in
+/-- **truncated FASTQ stream, non-ASCII text, any buffering**: the file is valid UTF-8 (without non-ASCII white
+space); a cut may fall inside a multi-byte character.  The reader on the first `n` bytes yields the items of the
+line-list model, or those items with the **last** one replaced by the UTF-8 error (`InvalidData`) — whatever the
+capacity and the schedule. -/
+theorem fastq_prefix_utf8_any_buffering (c : Nat) (sched : Nat → Nat) (hc : 1 ≤ c) (hs : Admissible sched)
+    (file : Bytes) (hutf : validUtf8 file = true) (hws : NoUws file) (n : Nat) :
+    parseFastqVia Txt.unicode c sched (file.take n) = (parseFastq (file.take n)).map .item ∨
+      ∃ pre last, parseFastq (file.take n) = pre ++ [last] ∧
+        parseFastqVia Txt.unicode c sched (file.take n) = pre.map .item ++ [.utf8] := by
+  rw [fastq_read_schedule_independent _ c sched hc hs]
+  exact fqRecordsU_abl _ (abl_splitLines_take file hutf n) fun l hl =>
+    Txt.unicode_agrees l fun b hb => hws b (List.mem_of_mem_take (mem_of_mem_splitLines _ l hl b hb))
+
+open RbV.BufLines in
+/-- **prefix safety for every valid-UTF-8 FASTQ file under any buffering**: the reader on the first `n` bytes of
+the writer's output yields the first `k` original records, followed by nothing, or by one item that is
+`IncompleteRecord`, the `k`-th original record, a record failing `check()`, or the UTF-8 error. -/
+theorem fastq_prefix_safe_utf8_any_buffering (c : Nat) (sched : Nat → Nat) (hc : 1 ≤ c) (hs : Admissible sched)
+    (recs : List FqRec) (hv : ∀ r ∈ recs, ValidFq r)
+    (hutf : validUtf8 (writeFastq recs) = true) (hws : NoUws (writeFastq recs)) (n : Nat) :
+    ∃ k tail, parseFastqVia Txt.unicode c sched ((writeFastq recs).take n) =
+        (recs.take k).map (fun r => .item (.ok r)) ++ tail ∧
+      (tail = [] ∨ tail = [.item .incomplete] ∨ (∃ r, recs[k]? = some r ∧ tail = [.item (.ok r)]) ∨
+       (∃ r', tail = [.item (.ok r')] ∧ r'.check = false) ∨ tail = [.utf8]) := by
+  obtain ⟨k, t, hk, ht⟩ := fastq_prefix_safe recs hv n
+  rcases fastq_prefix_utf8_any_buffering c sched hc hs _ hutf hws n with h | ⟨pre, last, h1, h2⟩
+  · refine ⟨k, t.map .item, by rw [h, hk]; simp [Function.comp_def], ?_⟩
+    rcases ht with rfl | rfl | ⟨r, hr, rfl⟩ | ⟨r', rfl, hr'⟩
+    · left; rfl
+    · right; left; rfl
+    · right; right; left; exact ⟨r, hr, rfl⟩
+    · right; right; right; left; exact ⟨r', rfl, hr'⟩
+  · rw [hk] at h1
+    have hpre : ∃ k', pre = (recs.take k').map FqItem.ok := by
+      rcases ht with rfl | rfl | ⟨r, _, rfl⟩ | ⟨r', rfl, _⟩
+      · -- the last item of the plain parse is an original record
+        refine ⟨pre.length, ?_⟩
+        simp only [List.append_nil] at h1
+        have hlen := congrArg List.length h1
+        simp only [List.length_map, List.length_take, List.length_append, List.length_cons, List.length_nil] at hlen
+        have h3 := congrArg (List.take pre.length) h1
+        simp only [List.take_left', ← List.map_take, List.take_take] at h3
+        have hmin : min pre.length k = pre.length := by omega
+        rw [hmin] at h3
+        exact h3.symm
+      · exact ⟨k, (List.append_inj_left' h1 rfl).symm⟩
+      · exact ⟨k, (List.append_inj_left' h1 rfl).symm⟩
+      · exact ⟨k, (List.append_inj_left' h1 rfl).symm⟩
+    obtain ⟨k', hk'⟩ := hpre
+    refine ⟨k', [.utf8], ?_, Or.inr (Or.inr (Or.inr (Or.inr rfl)))⟩
+    rw [h2, hk']
+    simp [Function.comp_def]
+
+open RbV.BufLines in
+/-- … hence every record obtained from a cut stream that passes `check()` is an original record, for every buffer
+capacity and every read fragmentation (non-ASCII ids and descriptions included). -/
+theorem fastq_prefix_checked_mem_any_buffering (c : Nat) (sched : Nat → Nat) (hc : 1 ≤ c) (hs : Admissible sched)
+    (recs : List FqRec) (hv : ∀ r ∈ recs, ValidFq r)
+    (hutf : validUtf8 (writeFastq recs) = true) (hws : NoUws (writeFastq recs)) (n : Nat) (r : FqRec)
+    (hr : SItem.item (FqItem.ok r) ∈ parseFastqVia Txt.unicode c sched ((writeFastq recs).take n))
+    (hchk : r.check = true) : r ∈ recs := by
+  apply fastq_prefix_checked_mem recs hv n r _ hchk
+  rcases fastq_prefix_utf8_any_buffering c sched hc hs _ hutf hws n with h | ⟨pre, last, h1, h2⟩
+  · rw [h] at hr
+    obtain ⟨y, hy, hxy⟩ := List.mem_map.mp hr
+    cases hxy
+    exact hy
+  · rw [h2] at hr
+    rw [h1]
+    rcases List.mem_append.mp hr with hx | hx
+    · obtain ⟨y, hy, hxy⟩ := List.mem_map.mp hx
+      cases hxy
+      exact List.mem_append_left _ hy
+    · simp at hx
+
+/-! ### Stated on the records
+
+`TextFa` / `TextFq`: id and description are valid UTF-8 (what `&str` gives) without the lead bytes of non-ASCII white
+space, sequence and qualities are ASCII — the records of the property text.  Then the written file is `PlainText`
+(`plainText_writeFasta`, `plainText_writeFastq`) and no hypothesis on the file is left. -/
+
+open RbV.BufLines in
+/-- **FASTA round trip**: for every list of valid text records, every wrap ≥ 1, every buffer capacity ≥ 1 and every
+admissible read schedule, the reader on the writer's output yields exactly the records. -/
+theorem fasta_roundtrip_records_any_buffering (c : Nat) (sched : Nat → Nat) (hc : 1 ≤ c) (hs : Admissible sched)
+    (wrap : Option Nat) (recs : List FaRec) (hv : ∀ r ∈ recs, ValidFa r) (ht : ∀ r ∈ recs, TextFa r)
+    (hw : ∀ w, wrap = some w → 1 ≤ w) :
+    parseFastaVia Txt.unicode c sched (writeFasta wrap recs) = recs.map fun r => .item (.ok r) :=
+  have hp := plainText_writeFasta wrap hw recs ht
+  fasta_roundtrip_any_buffering c sched hc hs wrap recs hv hw hp.1 hp.2
+
+open RbV.BufLines in
+/-- **FASTQ round trip**, likewise -/
+theorem fastq_roundtrip_records_any_buffering (c : Nat) (sched : Nat → Nat) (hc : 1 ≤ c) (hs : Admissible sched)
+    (recs : List FqRec) (hv : ∀ r ∈ recs, ValidFq r) (ht : ∀ r ∈ recs, TextFq r) :
+    parseFastqVia Txt.unicode c sched (writeFastq recs) = recs.map fun r => .item (.ok r) :=
+  have hp := plainText_writeFastq recs ht
+  fastq_roundtrip_any_buffering c sched hc hs recs hv hp.1 hp.2
+
+open RbV.BufLines in
+/-- **cut FASTQ stream**: every record that passes `check()` is an original record — every list of valid text
+records, every cut, every capacity, every schedule. -/
+theorem fastq_prefix_checked_mem_records_any_buffering (c : Nat) (sched : Nat → Nat) (hc : 1 ≤ c)
+    (hs : Admissible sched) (recs : List FqRec) (hv : ∀ r ∈ recs, ValidFq r) (ht : ∀ r ∈ recs, TextFq r) (n : Nat)
+    (r : FqRec) (hr : SItem.item (FqItem.ok r) ∈ parseFastqVia Txt.unicode c sched ((writeFastq recs).take n))
+    (hchk : r.check = true) : r ∈ recs :=
+  have hp := plainText_writeFastq recs ht
+  fastq_prefix_checked_mem_any_buffering c sched hc hs recs hv hp.1 hp.2 n r hr hchk
+
 /-! ## Non-vacuity -/
 
 private def exFa : List FaRec :=
@@ -139,5 +458,45 @@ example : parseFastq (writeFastq exFq) = exFq.map FqItem.ok := fastq_roundtrip e
 /-- a cut in the middle of the second record: whatever passes `check()` is an original record -/
 example (r : FqRec) (hr : FqItem.ok r ∈ parseFastq ((writeFastq exFq).take 14)) (hc : r.check = true) : r ∈ exFq :=
   fastq_prefix_checked_mem exFq exFq_valid 14 r hr hc
+
+/-- capacity 2, reads of 1, 3, 1, 3, … bytes (cut to the capacity); last line without terminator -/
+example : RbV.BufLines.linesVia 2 (RbV.BufLines.cyclic [1, 3]) [62, 105, 10, 65, 67, 71, 10, 10, 84] =
+    [[62, 105, 10], [65, 67, 71, 10], [10], [84]] :=
+  (read_line_schedule_independent 2 _ (by decide) (RbV.BufLines.cyclic_admissible _) _).trans (by decide)
+
+example : RbV.BufLines.linesVia 1 (fun _ => 1) [] = [] :=
+  (read_line_schedule_independent 1 _ (by decide) (fun _ => Nat.le_refl 1) _).trans (by decide)
+
+/-- capacity 3, reads of 2, 1, 5 bytes: the FASTA file of `exFa` (no wrap) through the stateful reader -/
+example : parseFastaVia Txt.unicode 3 (RbV.BufLines.cyclic [2, 1, 5]) (writeFasta none exFa) =
+    exFa.map fun r => .item (.ok r) :=
+  fasta_roundtrip_any_buffering 3 _ (by decide) (RbV.BufLines.cyclic_admissible _) none exFa exFa_valid
+    (by intro w h; cases h) (by decide) (by decide)
+
+/-- a FASTQ record with the non-ASCII id `é` (0xC3 0xA9), 1-byte buffer: the character is split over two reads -/
+private def exFqU : List FqRec := [{ id := [195, 169], desc := none, seq := [65, 67], qual := [33, 34] }]
+
+example : parseFastqVia Txt.unicode 1 (fun _ => 1) (writeFastq exFqU) = exFqU.map fun r => .item (.ok r) :=
+  fastq_roundtrip_any_buffering 1 _ (by decide) (fun _ => Nat.le_refl 1) exFqU (by decide) (by decide) (by decide)
+
+/-- a stream cut inside `é`: every configuration reports the UTF-8 error -/
+example : parseFastqVia Txt.unicode 1 (fun _ => 1) ((writeFastq exFqU).take 2) = [.utf8] :=
+  (fastq_read_schedule_independent _ 1 _ (by decide) (fun _ => Nat.le_refl 1) _).trans
+    (by simp [parseFastqU, exFqU, writeFastq, writeFastqRec, splitLines, fqRecordsU, fqReadU, validUtf8])
+
+/-- the cut inside `é` again, through the prefix theorem: whatever passes `check()` is an original record -/
+example (r : FqRec) (hr : SItem.item (FqItem.ok r) ∈ parseFastqVia Txt.unicode 2 (fun _ => 1) ((writeFastq exFqU).take 2))
+    (hc : r.check = true) : r ∈ exFqU :=
+  fastq_prefix_checked_mem_any_buffering 2 _ (by decide) (fun _ => Nat.le_refl 1) exFqU (by decide) (by decide)
+    (by decide) 2 r hr hc
+
+/-- `exFa` (wrap 2) and the non-ASCII `exFqU` are text records -/
+example : parseFastaVia Txt.unicode 1 (fun _ => 1) (writeFasta (some 2) exFa) = exFa.map fun r => .item (.ok r) :=
+  fasta_roundtrip_records_any_buffering 1 _ (by decide) (fun _ => Nat.le_refl 1) (some 2) exFa exFa_valid (by decide)
+    (by intro w h; cases h; decide)
+
+example : parseFastqVia Txt.unicode 5 (RbV.BufLines.cyclic [3, 1]) (writeFastq exFqU) =
+    exFqU.map fun r => .item (.ok r) :=
+  fastq_roundtrip_records_any_buffering 5 _ (by decide) (RbV.BufLines.cyclic_admissible _) exFqU (by decide) (by decide)
 
 end RbV.Thm.C11
